@@ -107,6 +107,14 @@ Fixpoint split_rbr (cf : bool) (l : bytes) : option (bytes * bytes) :=
 
 Definition last_byte (l : bytes) : byte := last l x00.
 
+(* `next = p.next(); if let Some((_, BRACKET_CLOSE)) = next { break }`, then the next round [k] *)
+Definition m_step (cf : bool) (k : byte -> bool -> bytes -> option (bool * bytes))
+  (m : bool) (pv : byte) (q' : bytes) : option (bool * bytes) :=
+  match q' with
+  | [] => None
+  | r :: q'' => if beqb (lc cf r) cRBR then Some (m, q'') else k pv m q'
+  end.
+
 (* The `loop` of the BRACKET_OPEN arm.  [q] starts at the byte held in `next`.  Result: None =
    AbortAll, Some (matched, pattern after the closing bracket).  One unit of fuel per iteration. *)
 Fixpoint m_brk (fuel : nat) (cf : bool) (t_ch : byte) (prev : byte) (matched : bool) (q : bytes)
@@ -114,12 +122,7 @@ Fixpoint m_brk (fuel : nat) (cf : bool) (t_ch : byte) (prev : byte) (matched : b
   match fuel with
   | O => None
   | S fuel' =>
-      (* `next = p.next(); if let Some((_, BRACKET_CLOSE)) = next { break }`, then the next round *)
-      let step (m : bool) (pv : byte) (q' : bytes) : option (bool * bytes) :=
-        match q' with
-        | [] => None
-        | r :: q'' => if beqb (lc cf r) cRBR then Some (m, q'') else m_brk fuel' cf t_ch pv m q'
-        end in
+      let step := m_step cf (m_brk fuel' cf t_ch) in
       match q with
       | [] => None
       | craw :: q1 =>
@@ -220,27 +223,28 @@ Fixpoint drop_stars (cf : bool) (l : bytes) : bytes :=
   | [] => []
   end.
 
+(* after the star(s): [nx] is the pattern from the byte `next` on, [tcur] = text[t_idx..] *)
+Definition m_go (rec : bytes -> bytes -> res) (cf : bool) (tcur : bytes) (ms : bool) (nx : bytes) : step :=
+  match nx with
+  | [] => Done (if negb ms && has_slash tcur then NoMatch else Match)
+  | c :: r =>
+      let p_ch := lc cf c in
+      if negb ms && beqb p_ch cSLASH then
+        match after_slash tcur with
+        | Some t' => Cont (Some c) r t'
+        | None => Done NoMatch
+        end
+      else Done (m_star_loop cf ms p_ch (rec (c :: r)) tcur)
+  end.
+
 (* the STAR arm; [p1] is the pattern after the star, [tcur] = text[t_idx..] *)
 Definition m_star (rec : bytes -> bytes -> res) (cf pn : bool) (prev : option byte) (p1 tcur : bytes) : step :=
-  let at_end (ms : bool) := Done (if negb ms && has_slash tcur then NoMatch else Match) in
-  let go (ms : bool) (nx : bytes) : step :=
-    match nx with
-    | [] => at_end ms
-    | c :: r =>
-        let p_ch := lc cf c in
-        if negb ms && beqb p_ch cSLASH then
-          match after_slash tcur with
-          | Some t' => Cont (Some c) r t'
-          | None => Done NoMatch
-          end
-        else Done (m_star_loop cf ms p_ch (rec (c :: r)) tcur)
-    end in
   match p1 with
-  | [] => at_end (negb pn)
+  | [] => m_go rec cf tcur (negb pn) []
   | n1 :: p2 =>
       if beqb (lc cf n1) cSTAR then
         let nx := drop_stars cf p2 in
-        if negb pn then go true nx
+        if negb pn then m_go rec cf tcur true nx
         else if match prev with None => true | Some b => beqb b cSLASH end &&
                 match nx with
                 | [] => true
@@ -248,11 +252,11 @@ Definition m_star (rec : bytes -> bytes -> res) (cf pn : bool) (prev : option by
                             (beqb (lc cf c) cBSL && match r with n :: _ => beqb (lc cf n) cSLASH | [] => false end)
                 end then
           match nx with
-          | [] => go true nx
-          | _ :: r => if res_eqb (rec r tcur) Match then Done Match else go true nx
+          | [] => m_go rec cf tcur true nx
+          | _ :: r => if res_eqb (rec r tcur) Match then Done Match else m_go rec cf tcur true nx
           end
-        else go false nx
-      else go (negb pn) p1
+        else m_go rec cf tcur false nx
+      else m_go rec cf tcur (negb pn) p1
   end.
 
 (* ---- the main loop `while let Some((p_idx, p_ch)) = p.next()` ------------------------------- *)
